@@ -14,10 +14,25 @@ import time
 from concurrent.futures import ThreadPoolExecutor
 
 _start = threading.Lock()
+_slots = {}            # ctx id -> semaphore bounding the number of concurrent TLC processes
+_slots_lock = threading.Lock()
+
+
+def _slot(ctx):
+    with _slots_lock:
+        if id(ctx) not in _slots:
+            _slots[id(ctx)] = threading.BoundedSemaphore(max(1, min(ctx.workers, 8)))
+        return _slots[id(ctx)]
 
 
 def tlc(ctx, *a, **kw):
-    """ctx.tlc, safe to call from several threads."""
+    """ctx.tlc, safe to call from several threads; at most min(VERIF_WORKERS, 8) TLC processes at a time
+    (pipelines may nest: a chunked judgement inside a batch pipeline)."""
+    with _slot(ctx):
+        return _tlc(ctx, *a, **kw)
+
+
+def _tlc(ctx, *a, **kw):
     box = {}
 
     def call():
